@@ -508,6 +508,8 @@ level further in: the distance between use and definition was not a dimension.  
 pass-dependent zone named, see NOT judged); on a copy of the current /repo:
   FindLocNode: FindLocNode_FNode(Name, SearchType, FirstLocHandle->Cont) (the seed) -> VIOLATION (refdepth: 216 of 405
       quick programs = all with D = {1} and no GLOBALSYMBOLS level)                              (ctest 201/201)
+  FindLocNode: the walk does not stop at the first hit (the OUTERMOST enclosing space decides) -> VIOLATION (refdepth:
+      72 of 405, the programs with D = {2} and {1,2}: use two levels in, definition one level in)  (ctest not run)
 Corrupted traces (MacroProc_CorpusTrace on t_irpn): one token of a delivered body line changed, one delivered line
 dropped, exhausted flag flipped, depth changed -> each REJECTED at the corrupted event.
 All six proposed fixes applied together: 0 violations, no known finding hit, 201/201 golden tests.
